@@ -33,6 +33,13 @@ type Tag<T> =
   | TagA
   | TagB
 
+// fields / cases mention the type parameters in ANOTHER order than the parameter list
+type Pr2<A, B> = {Rr: B; Ll: A}
+
+type Rs2<T, E> =
+  | Er2 of E
+  | Ok2 of T
+
 type V =
   | P of int*string
   | Q of R
